@@ -13,8 +13,11 @@ import (
 	"fmt"
 	"sort"
 	"strings"
+	"sync"
 	"testing"
 
+	"github.com/XiaoMi/Gaea/mysql"
+	"github.com/XiaoMi/Gaea/util"
 	kit "github.com/XiaoMi/Gaea/verifkit"
 )
 
@@ -22,6 +25,7 @@ type c05Case struct {
 	Cfg     string  `json:"cfg"`
 	Kind    string  `json:"kind"` // update | delete | keyassign-update | keyassign-odku
 	Style   string  `json:"style"`
+	Deco    string  `json:"deco,omitempty"`   // table-name decorations, see plSpellX
 	Assign  string  `json:"assign,omitempty"` // lit | inc | two | incq
 	OrderBy bool    `json:"orderby,omitempty"`
 	Cond    *plCond `json:"cond,omitempty"`
@@ -32,7 +36,8 @@ type c05Case struct {
 }
 
 func c05SQL(c *plCfg, cs *c05Case) string {
-	ref, cols := plSpell(c, cs.Style, c.Table, c.Key)
+	sp := plSpellX(c, cs.Style, cs.Deco, c.Table, c.Key, "a")
+	ref, cols := sp.Ref, sp.Cols
 	where := ""
 	if cs.Cond != nil {
 		where = " WHERE " + cs.Cond.SQL(cols)
@@ -46,7 +51,7 @@ func c05SQL(c *plCfg, cs *c05Case) string {
 		bareCnt = "CNT"
 	}
 	rhsCnt := bareCnt
-	if cs.Style == "alias" || cs.Assign == "incq" {
+	if cs.Style == "alias" || cs.Style == "dbalias" || cs.Assign == "incq" {
 		rhsCnt = cols["cnt"]
 	}
 	switch cs.Kind {
@@ -172,10 +177,24 @@ func c05Run(cs *c05Case) (res c05Result) {
 	if res.Rejected != "" {
 		return
 	}
+	if pl.Unshard {
+		how := "BuildPlan returned an UnshardPlan"
+		if pl.Fast {
+			how = "the session's token pre-check took it for a statement on unsharded tables"
+		}
+		res.Clause = "planned-as-unsharded"
+		res.Detail = fmt.Sprintf("UPDATE/DELETE on a sharded table: %s; it is sent verbatim to the default slice only, the rows of the other tables are not touched: %v", how, plFlatten(pl.SQLs))
+		return
+	}
 	base, refBase := c05Stores(c)
+	c05Prime(c)
 	shards := base.clone()
 	x := &plExec{Store: shards}
-	affected, _, xerr := plExecute(pl.Plan, x)
+	affected, merged, xerr := c05Execute(pl.Plan, x)
+	if merged != nil {
+		// the session writes the OK packet and releases the result (ClientConn.writeOKResult)
+		defer merged.Free()
+	}
 	if xerr != nil {
 		switch x.ExecErr.(type) {
 		case plErrInvalid:
@@ -234,6 +253,61 @@ func c05Run(cs *c05Case) (res c05Result) {
 		res.Detail = fmt.Sprintf("merged AffectedRows=%d, single database changes %d rows; sent: %v", affected, n, c05Short(x.Sent))
 	}
 	return
+}
+
+// c05Execute is plExecute that also hands back the merged result so that it can be released
+// the way the session does after writing the OK packet.
+func c05Execute(p Plan, x *plExec) (affected uint64, res *mysql.Result, err error) {
+	defer func() {
+		if r := recover(); r != nil {
+			err = fmt.Errorf("panic in ExecuteIn: %v", r)
+		}
+	}()
+	res, err = p.ExecuteIn(util.NewRequestContext(), x)
+	if err != nil || res == nil {
+		return 0, nil, err
+	}
+	return res.AffectedRows, res, nil
+}
+
+var c05Primers = map[string]Plan{}
+
+// c05Prime plays the sessions that finished just before the statement under test: a broadcast
+// UPDATE is executed from two goroutines (each backend statement reports 3 changed rows through
+// an OK result taken from mysql.ResultPool, like DirectConnection.handleOKPacket), and the
+// merged results are then released like ClientConn.writeOKResult does, more of them than the
+// next statement has backend statements. A released result that is not cleared shows up as a
+// stale AffectedRows in the next merged result.
+func c05Prime(c *plCfg) {
+	p, ok := c05Primers[c.ID]
+	if !ok {
+		pl := plBuild(c, c.DB, "UPDATE "+c.Table+" SET cnt = 7")
+		if pl.Rejected() || pl.Unshard {
+			return
+		}
+		p = pl.Plan
+		c05Primers[c.ID] = p
+	}
+	n := len(c.Idx) + 2
+	out := make(chan *mysql.Result, n)
+	var wg sync.WaitGroup
+	for g := 0; g < 2; g++ {
+		wg.Add(1)
+		go func(g int) {
+			defer wg.Done()
+			for i := g; i < n; i += 2 {
+				_, r, _ := c05Execute(p, &plExec{Fixed: 3, NoLog: true})
+				out <- r
+			}
+		}(g)
+	}
+	wg.Wait()
+	close(out)
+	for r := range out {
+		if r != nil {
+			r.Free()
+		}
+	}
 }
 
 func c05Short(s []plSent) []plSent {
@@ -303,6 +377,18 @@ func c05Minimize(cs *c05Case, clause string) (*c05Case, string) {
 				x.OrderBy = false
 				cands = append(cands, &x)
 			}
+			for i := range cur.Deco {
+				x := cur
+				x.Deco = cur.Deco[:i] + cur.Deco[i+1:]
+				cands = append(cands, &x)
+			}
+			if cur.Style == "dbalias" {
+				for _, st := range []string{"db", "alias"} {
+					x := cur
+					x.Style = st
+					cands = append(cands, &x)
+				}
+			}
 			if cur.Style != "bare" {
 				x := cur
 				x.Style = "bare"
@@ -352,6 +438,12 @@ func c05Minimize(cs *c05Case, clause string) (*c05Case, string) {
 		})
 	}
 	parts := []string{c.Type, clause, cur.Kind}
+	if clause == "planned-as-unsharded" {
+		parts = []string{clause, cur.Kind} // decided from the tokens, before any rule is consulted
+	}
+	if cur.Deco != "" {
+		parts = append(parts, "deco="+cur.Deco)
+	}
 	if cur.Kind == "update" {
 		parts = append(parts, "assign="+cur.Assign)
 	}
@@ -361,10 +453,12 @@ func c05Minimize(cs *c05Case, clause string) (*c05Case, string) {
 	if cur.OrderBy {
 		parts = append(parts, "orderby")
 	}
-	if cur.Cond != nil {
-		parts = append(parts, cur.Cond.Shape())
-	} else {
-		parts = append(parts, "nowhere")
+	if clause != "planned-as-unsharded" {
+		if cur.Cond != nil {
+			parts = append(parts, cur.Cond.Shape())
+		} else {
+			parts = append(parts, "nowhere")
+		}
 	}
 	c05Run(&cur)
 	return &cur, strings.Join(parts, "|")
@@ -471,6 +565,25 @@ func TestVerif_C05(t *testing.T) {
 		}
 	}
 
+	// (2b) every spelling of the table reference with a fixed point condition
+	for i, id := range ids {
+		if kit.Tier() != "thorough" && i%5 != int(kit.Seed()%5) {
+			continue
+		}
+		c, _ := plGetCfg(id, "")
+		point := &plCond{Op: "cmp", Col: "key", Cmp: "=", Lits: []plLit{{SQL: c.Keys[0].SQL, Class: c.Keys[0].Class}}}
+		for _, st := range plStyles {
+			for _, dc := range []string{"", "U", "M", "Q", "C", "N", "UQ", "MC", "CN", "UN", "QC"} {
+				if strings.Contains(dc, "N") && st != "alias" && st != "dbalias" {
+					continue
+				}
+				runOne(&c05Case{Cfg: id, Kind: "delete", Style: st, Deco: dc, Cond: point})
+				runOne(&c05Case{Cfg: id, Kind: "update", Style: st, Deco: dc, Assign: "inc", Cond: point})
+				runOne(&c05Case{Cfg: id, Kind: "update", Style: st, Deco: dc, Assign: "lit"})
+			}
+		}
+	}
+
 	// (3) random
 	r := kit.SubRand(kit.Seed(), "C05/random")
 	n := kit.N(2500, 150000)
@@ -478,7 +591,7 @@ func TestVerif_C05(t *testing.T) {
 	for i := 0; i < n; i++ {
 		id := ids[r.Intn(len(ids))]
 		c, _ := plGetCfg(id, "")
-		cs := &c05Case{Cfg: id, Kind: "update", Style: plStyles[r.Intn(len(plStyles))], OrderBy: r.Chance(1, 4)}
+		cs := &c05Case{Cfg: id, Kind: "update", Style: plStyles[r.Intn(len(plStyles))], OrderBy: r.Chance(1, 4), Deco: plDecos[r.Intn(len(plDecos))]}
 		if r.Chance(2, 5) {
 			cs.Kind = "delete"
 		} else {
